@@ -238,8 +238,11 @@ def check_proofs(pid, coq_ok, coq_log):
     if not os.path.exists(path):
         res['errors'].append('no Properties/%s.v' % pid)
         return res
-    text = open(path).read()
-    thms = re.findall(r'^\s*(?:Theorem|Corollary|Lemma)\s+(\w+)', text, re.M)
+    import glob as _glob
+    paths = [path] + sorted(_glob.glob(os.path.join(COQ, 'Properties', pid + '_*.v')))
+    thms = []
+    for q in paths:
+        thms += re.findall(r'^\s*(?:Theorem|Corollary|Lemma)\s+(\w+)', open(q).read(), re.M)
     res['theorems'] = thms
     res['obligations'] = len(thms)
     # forbidden constructs anywhere in the development
@@ -251,11 +254,14 @@ def check_proofs(pid, coq_ok, coq_log):
         m = FORBIDDEN.search(body)
         if m:
             res['errors'].append('forbidden construct %r in %s' % (m.group(0), f))
-    rc, out = sh(['coqc', '-Q', '.', 'Ink', os.path.join('Properties', pid + '.v')], cwd=COQ, timeout=3000)
-    if rc != 0:
-        res['errors'].append('Properties/%s.v does not compile: %s' % (pid, out[-1500:]))
-        # which theorem? take the first error location
-        return res
+    out = ''
+    for q in paths:
+        rel = os.path.relpath(q, COQ)
+        rc, o = sh(['coqc', '-Q', '.', 'Ink', rel], cwd=COQ, timeout=3000)
+        if rc != 0:
+            res['errors'].append('%s does not compile: %s' % (rel, o[-1500:]))
+            return res
+        out += o
     closed = out.count('Closed under the global context')
     ax = re.findall(r'^\s*(\w[\w.]*)\s*:', out[out.find('Axioms:'):], re.M) if 'Axioms:' in out else []
     res['axioms'] = sorted(set(ax))
